@@ -1,11 +1,12 @@
 """Per-property configuration of ./check (engines, trusted base, assumptions)."""
+import ext_engines
 
 # model .vo files the extraction depends on (relative to coq/)
 MODEL_VO = ['gen/Consts.vo', 'gen/CrcTables.vo', 'model/Bytes.vo', 'model/Codec.vo', 'model/Order.vo', 'model/Crc.vo',
             'model/Block.vo', 'model/Writer.vo', 'model/WriteLoop.vo', 'spec/Leb128.vo', 'spec/Parse.vo', 'model/Reader.vo', 'model/Verify.vo', 'model/Compress.vo', 'model/Heap.vo', 'model/Merger.vo', 'model/Sorter.vo', 'model/Fileset.vo', 'model/Ledger.vo', 'model/Pool.vo']
 # OCaml modules of the driver, in link order
 OCAML_MODULES = ['common', 'gen', 'enc', 'c16', 'wr', 'c20', 'rd', 'c19', 'c17', 'c12', 'c15', 'mg', 'so', 'fs', 'lk', 'pl', 'main']
-C_VARIANTS_SETUP = ('all',)
+C_VARIANTS_SETUP = ('all', 'tsan')
 EXTRA_BUILDS = []
 COQ_TIMEOUT = 3000
 
@@ -129,6 +130,14 @@ PROPS = {
                         'PARTIAL: T13a (worker count never exceeds the maximum, every schedule) is proved; exactly-once/ordered delivery (T13b_statement) and absence of deadlock (T13d_statement) are stated and checked on every explored schedule',
                         'the writer/sorter clauses (byte-identical file, same entries) are checked with real threads by engines wr and so over pools 0..8; their proof is the composition T13b + purity of the compress/write-chunk jobs, not yet written'],
         'explanation': 'LTS of threadpool.c at pthread-operation granularity (model/Pool.v). Engine pl: the real threadpool.c under controlled schedules - default, every single preemption of it, seeded random with random signal targets and spurious wake-ups, pairs of preemptions (thorough) - replayed on the LTS with the enabled-thread set compared after every step; deadlock, assertion failure, lost/duplicated/reordered results and too many workers are violations.',
+    },
+    'C14': {
+        'engines': [{'name': 'tsan', 'kind': 'external', 'run': ext_engines.tsan_engine}],
+        'c_variants': ('all', 'tsan'),
+        'trusted_base': ['ThreadSanitizer (gcc -fsanitize=thread) on the library built from /repo with the hook enabled; harness/tsan_stress.c'],
+        'assumptions': ['PARTIAL by nature: a theorem about the Gallina LTS says nothing about which memory accesses the C code performs; T14a_lock_partial states mutual exclusion and ownership after acquisition on the LTS, T14_statement (full lockset discipline) is stated only',
+                        'absence of a TSan report on the explored executions is not a proof of race freedom; a report is a concrete violation'],
+        'explanation': 'Protocol-level lock discipline on the LTS of threadpool.c (which mutex guards which fields; acquisition only when free; the code after an acquisition runs as owner). Data-race freedom of the C code is searched with ThreadSanitizer on real concurrent programs: pooled writers and sorters sharing one pool from several caller threads, many threads on one reader, first-use of the CRC dispatch from several workers, mixed.',
     },
     'C15': {
         'engines': [{'name': 'c15', 'timeout_quick': 600, 'timeout_thorough': 7200}],
